@@ -134,6 +134,14 @@ let () =
               Buffer.add_string out (show r)
             done;
             Buffer.add_char out '\n'
+          | 'X' ->
+            let init = n_of_hex tok.(1) in
+            Buffer.add_string out "X";
+            for b = 0 to 255 do
+              Buffer.add_char out ' ';
+              Buffer.add_string out (show (crc [ n_of_int b ] init))
+            done;
+            Buffer.add_char out '\n'
           | 'R' ->
             let k = width_of_int (int_of_string tok.(1)) in
             Buffer.add_string out ("R " ^ hex_of_n (a_rev k (n_of_hex tok.(2))) ^ "\n")
